@@ -310,6 +310,7 @@ def soak_case(ctx, idx, rng):
         return around
     ctx.case(('soak', 'repository-test-suite'), nontrivial=True, sample={'functions_guarded': SOAK_FUNCS})
     soak.run_suite(ctx, [(f, make(f)) for f in SOAK_FUNCS])
+    soak.run_notebooks(ctx, [(f, make(f)) for f in SOAK_FUNCS])
 
 
 SPEC = {
